@@ -246,6 +246,7 @@ def gen_cases(tier, rng):
     texts += tb.cdata_edge_texts()
     fnt = [t for t, c in tb.foreign_named_texts() if c is None]
     texts += fnt[::(16 if quick else 2)]
+    texts += [t for t, c in tb.fix_families() if c is None][::(3 if quick else 1)]
     texts += directed_docs(rng, 2500 if quick else 150000)
     texts += [tb.random_html(rng, rng.randint(1, 30)) for _ in range(1500 if quick else 80000)]
     for s in texts:
